@@ -2208,7 +2208,13 @@ class CIMInstanceName(_CIMComparisonMixin, SlottedPickleMixin):
                 # which is the precision needed to round-trip double precision
                 # IEE-754 floating point numbers between decimal and binary
                 # without loss.
-                ret.append(repr(value))
+                # float() strips the CIMFloat subclass (its repr() is the
+                # debug form); DSP0004 realValue requires a fraction part, so
+                # an exponent form without one (1e+16) gets '.0' inserted.
+                real_str = repr(float(value))
+                if 'e' in real_str and '.' not in real_str:
+                    real_str = real_str.replace('e', '.0e')
+                ret.append(real_str)
             elif isinstance(value, (CIMInt, int)):
                 # intNN
                 ret.append(str(value))
